@@ -1210,6 +1210,12 @@ int _vnadata_load_touchstone(vnadata_internal_t *vdip, FILE *fp,
 		    tps.tps_filename, tps.tps_line);
 		goto out;
 	    }
+	    if (!isfinite(tps.u.tps_double) || tps.u.tps_double <= 0.0) {
+		_vnadata_error(vdip, VNAERR_SYNTAX, "%s (line %d) error: "
+			"the impedance after R must be positive",
+		    tps.tps_filename, tps.tps_line);
+		goto out;
+	    }
 	    tps.tps_z0 = tps.u.tps_double;
 	    if (next_token(&tps, F_NONE) == -1) {
 		goto out;
@@ -1355,6 +1361,12 @@ int _vnadata_load_touchstone(vnadata_internal_t *vdip, FILE *fp,
 		    _vnadata_error(vdip, VNAERR_SYNTAX, "%s (line %d) error: "
 			    "expected %d values(s) after [Reference]",
 			tps.tps_filename, tps.tps_line, tps.tps_ports);
+		    goto out;
+		}
+		if (!isfinite(tps.u.tps_double) || tps.u.tps_double <= 0.0) {
+		    _vnadata_error(vdip, VNAERR_SYNTAX, "%s (line %d) error: "
+			    "[Reference] values must be positive",
+			tps.tps_filename, tps.tps_line);
 		    goto out;
 		}
 		reference[i] = tps.u.tps_double;
